@@ -46,6 +46,17 @@ class AbsData:
         lo = B.prove_ge0(Aff.of(k))
         hi = B.prove_ge0(self.L - 1 - Aff.of(k))
         self.reads.append(("index", k, lo is True and hi is True, getattr(node, "lineno", 0)))
+        # axioms of FF: data[FF(c)] == 0xFF when FF(c) < len, and data[i] != 0xFF for c <= i < FF(c)
+        for tag, fargs, extra, ff in list(B.cur().entries):
+            if tag != "fn:FF[%s]" % self.name:
+                continue
+            if B.is_zero(Aff.of(k) - ff):
+                if B.decide_ge0(self.L - 1 - ff, "FF(c) < len(data)"):
+                    return BREAK
+            elif B.prove_ge0(Aff.of(k) - fargs[0]) is True and B.prove_ge0(ff - 1 - Aff.of(k)) is True:
+                v = B.uninterp("%s[]" % self.name, [Aff.of(k)], 0, 255)
+                B.assume_ge0(Aff(BREAK - 1) - v)
+                return v
         return B.uninterp("%s[]" % self.name, [Aff.of(k)], 0, 255)
 
     def load_slice(self, fr, lo, hi, node):
